@@ -106,7 +106,7 @@ func (c *vctx) cancel(err error) {
 		vsched.FoldValue(0xca9ce1)
 		c.cancelNow(err, 0xca9ce1)
 	}}
-	vsched.DoPoint(p.SetPC(vsched.CallerPC(2)))
+	vsched.DoPoint(p.SetPC(vsched.CallerPC(3)))
 }
 
 func WithCancel(parent Context) (Context, CancelFunc) {
